@@ -5,6 +5,7 @@ import inspect
 import io
 import os
 import random
+import time
 
 import h5py
 import numpy as np
@@ -14,6 +15,9 @@ from nixio.exceptions import DuplicateName
 from ..lib import core, storegen
 from ..lib.core import Failure, Disagreement
 from ..lib.storeimpl import Impl, BadOp, TRACKED
+from . import c12_sweep as SW
+from . import c12_vec as VEC
+from ..extract import writeorder as _wo
 
 PROP = "C12"
 LEAN_MODULE = "NixModel.Props.C12"
@@ -33,6 +37,11 @@ THEOREMS = [
     "Nix.C12.extend_loop_counterexample",
     "Nix.C12.auto_array_life_cycle",
     "Nix.C12.multi_tag_refused_unchanged",
+    "Nix.C12.write_data_refused_unchanged",
+    "Nix.C12.write_data_accepted",
+    "Nix.C12.vector_setters_refused_unchanged",
+    "Nix.C12.property_values_refused_unchanged",
+    "Nix.C12.write_order_matters",
 ]
 ASSUMPTIONS = [
     "uuid4 ids are drawn from an abstract fresh supply; no link of the file is named like an id not yet drawn "
@@ -46,30 +55,63 @@ ASSUMPTIONS = [
     "the theorems quantify over every graph with C03's invariant (every state reachable when refused calls leave the "
     "graph literally unchanged); that the invariant also survives the unlinked leftovers of the writer semantics is "
     "not proved - the correspondence runs the model on the writer-reached graphs throughout",
-    "array data, property values and dataset extents are outside the structural model (leaf nodes): refusals of "
-    "data-level calls (DataSet.append, setters writing datasets) are covered by the implementation-side oracle only",
+    "array data and dataset extents are outside the structural model (leaf nodes); the vector-valued attributes "
+    "(Tag.position / extent, DataArray.polynom_coefficients through H5Group.write_data, Property.values) have a model "
+    "of their own (Pure/VecWrite.lean) whose step lists are rendered from the source; other data-level calls "
+    "(DataSet.append, write_direct, DataFrame writes, dimension setters) are covered by the implementation-side oracle only",
+    "VecWrite: elements of an offered value are abstract (typeOk / convOk / h5Ok); a NumPy conversion that succeeded makes "
+    "the following h5py write of the converted contiguous array succeed; h5py refuses a resize to another rank without "
+    "changing the dataset; resize of a one-dimensional dataset truncates or zero-pads",
 ]
 TRUSTED_EXTRA = ["harness/lib/storeimpl.py + storegen.py (path addressing by iteration, HDF5-level dump with h5py)",
-                 "harness/props/c12.py FAULTS table (concrete invalid argument -> stage and error class)"]
+                 "harness/props/c12.py FAULTS table (concrete invalid argument -> stage and error class)",
+                 "harness/extract/writeorder.py renders H5Group.write_data and the position / extent / polynom_coefficients / "
+                 "Property.values setters statement by statement as step lists (any unrecognised statement is a broken tie)",
+                 "harness/props/c12_vec.py ELEMS table (concrete element -> typeOk / convOk / h5Ok)"]
 READY = True
 MANIFEST = {
-    "level_text": "Kernel-checked theorems over a Lean model of nixio's creating/mutating API written as *writers* "
-                  "(Store/ApiW.lean: primitive HDF5 writes in the code's order, returning the graph reached together "
-                  "with the error): agreement with the Except-style API model used by C03-C05, and refused_unchanged "
-                  "— for every operation, fault stage and error class, in every reachable state, the graph reached by "
-                  "a refused call is observationally the graph before it (all attributes and ordered links of every "
-                  "node kept; only links to new empty container groups may appear; rolled-back nodes are unlinked). "
-                  "Tied to the code by differential execution of random histories with injected invalid calls "
-                  "(HDF5-level dump after the refusal compared with the model's reached graph, then the same call "
-                  "with a valid argument), plus an implementation-side oracle (strict HDF5 snapshot around every "
-                  "refused call of a catalogue and of random histories).",
-    "level_note": "Trusted: Lean kernel; standard axioms; the correspondence harness and its fault table; h5py/HDF5 link "
-                  "semantics modelled, not verified. Partial: dataset contents/extents are leaf nodes of the model, so "
-                  "refused data-level calls (DataSet.append, dataset-writing setters) are checked by the oracle only. create_multi_tag with positions/extents given as data (auto-created arrays, roll-back "
-                  "through delete_all) has its own full theorem (multi_tag_refused_unchanged, under C03's invariant WF and "
-                  "the assumption that '<name>-positions' / '<name>-extents' are not ids of the supply). "
-                  "name_still_available is proved for create_group/source/data_array/tag (not for multi tags).",
+    "level_text": "Kernel-checked theorems over two Lean models tied to the source. (1) nixio's creating/mutating API "
+                  "written as *writers* (Store/ApiW.lean: primitive HDF5 writes in the code's order, returning the graph "
+                  "reached together with the error): agreement with the Except-style API model used by C03-C05, and "
+                  "refused_unchanged - for every operation, fault stage and error class, in every reachable state, the "
+                  "graph reached by a refused call is observationally the graph before it (all attributes and ordered links "
+                  "of every node kept; only links to new empty container groups may appear; rolled-back nodes are unlinked). "
+                  "(2) the vector-valued attributes (Pure/VecWrite.lean): H5Group.write_data and the Tag.position / "
+                  "Tag.extent / DataArray.polynom_coefficients / Property.values setters are *step lists rendered from the "
+                  "source statement by statement* (Generated/WriteOrder.lean: condition of the NumPy conversion, order of "
+                  "conversion / resize-or-create / write / time stamp); for every spelling of the value (None, number, "
+                  "list, tuple, ndarray of any element type, 0-d, n-d), every stored vector or none, a refused assignment "
+                  "leaves dataset and updated_at unchanged, an accepted one stores the converted values; moving the resize "
+                  "before the conversion or narrowing the conversion's condition in the source breaks lake build on named "
+                  "theorems (write_order_matters proves both variants wrong on the model). "
+                  "Tied to the code by differential execution: random histories with injected invalid calls (HDF5-level "
+                  "dump after the refusal compared with the writer model's reached graph, then the same call with a valid "
+                  "argument) and random vector assignments (dataset read back with h5py). An implementation-side oracle "
+                  "states the property itself: strict HDF5 snapshot around every refused call of a catalogue, of random "
+                  "histories, and of the argument-spelling sweep (about 175 value-taking public mutators x 350 spellings of "
+                  "the value x short / long stored state; quick tier: a stratified part, thorough: most of it).",
+    "level_note": "Trusted: Lean kernel; standard axioms; the correspondence harness with its fault table and element table; "
+                  "the two translators' reading of the statements; h5py/HDF5 link and resize semantics modelled, not "
+                  "verified. Partial: array data and frame contents are leaf nodes - refusals of DataSet.append, "
+                  "write_direct, __setitem__, data_extent, DataFrame writes, dimension setters (ticks, labels, unit, label, "
+                  "offset, interval), dimension links, Property attribute setters, Section item assignment, copy_from "
+                  "creation and File-level deletes have no theorem: they are checked by the oracle (catalogue + spelling "
+                  "sweep) on the implementation only. Tag.units / MultiTag.units (string vectors), RangeDimension.ticks and "
+                  "SetDimension.labels go through write_data with a non-float dtype and are outside write_data_refused_unchanged "
+                  "(stated for the float dtype). create_multi_tag with positions/extents given as data has its own full theorem "
+                  "(multi_tag_refused_unchanged, under C03's invariant WF and the assumption that '<name>-positions' / "
+                  "'<name>-extents' are not ids of the supply). name_still_available is proved for "
+                  "create_group/source/data_array/tag (not for multi tags).",
+    "technique": "Lean 4 proof (writer semantics of the structural model: per-operation case analysis and invariants over "
+                 "all graphs / histories; a step-list machine for the vector setters with induction over validation "
+                 "prefixes) with differential correspondence checking against nixio, two ast-based translators, and an "
+                 "implementation-side property oracle (snapshot around refused calls: catalogue, histories, spelling sweep)",
 }
+
+
+def extract(repo):
+    return _wo.extract(repo)
+
 
 TRACKED12 = TRACKED + ("dimension_type",)
 
@@ -653,8 +695,33 @@ def correspondence(ctx):
                 seen.add(core.canon(op))
         if h < 2:
             samples.append({"history": h, "first_ops": ops[:8], "first_outputs": [str(o)[:200] for o in outs[:8]]})
+    # the vector setters: model (step lists rendered from the source) vs. implementation, case by case
+    n_vec = ctx.budget(500, 6000)
+    vrng = random.Random("%s/vec/%d" % (PROP, ctx.seed))
+    vcases = [VEC.gen_case(vrng) for _ in range(n_vec)]
+    vmodel = core.run_driver(PROP, [VEC.model_op(c) for c in vcases])
+    vdist = {"refused": 0, "accepted": 0}
+    scene = VEC.Scene(ctx.tmpfile("c12-vec.nix"))
+    try:
+        with ticking_clock():
+            for c, m in zip(vcases, vmodel):
+                i = scene.run(c)
+                vdist["refused" if i["refused"] else "accepted"] += 1
+                k = "%s/%s" % (c["setter"], c["arg"]["shape"])
+                vdist[k] = vdist.get(k, 0) + 1
+                seen.add(core.canon(["vec", c["setter"], c["stored"], c["arg"]]))
+                if VEC.canon_model(m) != VEC.canon_impl(i):
+                    disagreements.append(Disagreement({"vector_case": c}, VEC.canon_model(m), dict(VEC.canon_impl(i), error=i["error"])))
+    finally:
+        scene.close()
+    total += n_vec
     return {"evaluations": total, "distinct_nontrivial": len(seen),
-            "rule": "storegen histories (profiles mixed / create_delete / links) in which 35% of the steps are injected "
+            "rule": "(1) vector setters: Tag.position / Tag.extent / DataArray.polynom_coefficients / Property.values "
+                    "with a random stored vector (or none) and a value spelled as None / number / object / list / tuple / "
+                    "ndarray (float64, int64, str, object) / 0-d array / nested list / 2-D array / empty, elements numbers, "
+                    "text, objects, integers outside int64: refused or accepted, the dataset read back with h5py, whether "
+                    "updated_at moved - against Pure/VecWrite.lean run on the step lists of Generated/WriteOrder.lean. "
+                    "(2) storegen histories (profiles mixed / create_delete / links) in which 35% of the steps are injected "
                     "invalid calls: create_data_array / create_tag with an argument of every fault class of the FAULTS "
                     "table, create_multi_tag with positions/extents as reference (same block / foreign / wrong kind), "
                     "valid data, invalid data or None (also with the auto-created array's name taken), "
@@ -666,7 +733,8 @@ def correspondence(ctx):
                     "*writer* has reached) and followed by the same call with a valid argument. non-trivial = distinct "
                     "op (canonical JSON) whose result is an error or a non-empty value",
             "samples": samples,
-            "distribution": {"ops": dist, "impl_errors": errs, "injected": inj, "refused_mutating_calls": refused_mut},
+            "distribution": {"ops": dist, "impl_errors": errs, "injected": inj, "refused_mutating_calls": refused_mut,
+                             "vector_cases": vdist},
             "disagreements": disagreements, "exhaustive": False}
 
 
@@ -698,18 +766,24 @@ def _quiet(fn):
         return fn()
 
 
-def _build(f):
+def _build(f, long=False):
+    """the scene of the catalogue and of the spelling sweep; `long`: the stored vectors / tables hold 4-5 values
+    instead of 1-2 (a premature resize shows whether it truncates or pads)"""
     b = f.create_block("b", "t")
     b2 = f.create_block("b2", "t")
     da = b.create_data_array("da", "t", data=[[1.0, 2.0], [3.0, 4.0]])
-    d1 = b.create_data_array("d1", "t", data=[1.0, 2.0, 3.0])
+    d1 = b.create_data_array("d1", "t", data=[0.0, 1.0, 2.0, 3.0, 4.0] if long else [0.0, 1.0, 2.0])
     ds = b.create_data_array("ds", "t", dtype=nixio.DataType.String, data=["x", "y"])
+    dx = b.create_data_array("dx", "t", data=[1.0, 2.0])
     da2 = b2.create_data_array("x", "t", data=[1.0])
-    df = b.create_data_frame("df", "t", col_dict={"a": int, "s": str}, data=[(1, "u"), (2, "v")])
-    t = b.create_tag("tg", "t", [0.0])
-    t.extent = [1.0]
-    t.units = ["mV"]
+    rows = [(1, "u"), (2, "v"), (3, "w"), (4, "x")]
+    df = b.create_data_frame("df", "t", col_dict={"a": int, "s": str}, data=rows if long else rows[:2])
+    df2 = b.create_data_frame("df2", "t", col_dict={"a": int, "s": str}, data=rows if long else rows[:2])
+    t = b.create_tag("tg", "t", [0.0, 1.0, 2.0, 3.0] if long else [0.0])
+    t.extent = [1.0, 1.0, 1.0, 1.0] if long else [1.0]
+    t.units = ["mV", "s", "mV", "s"] if long else ["mV"]
     mt = b.create_multi_tag("mt", "t", positions=d1)
+    mt.units = ["mV", "s", "mV", "s"] if long else ["mV"]
     g = b.create_group("g", "t")
     g.data_arrays.append(da)
     t.references.append(da)
@@ -718,18 +792,19 @@ def _build(f):
     da.sources.append(src2)
     s = f.create_section("s", "t")
     s2 = s.create_section("sub", "t")
-    pr = s.create_property("p", [1, 2])
-    ps = s.create_property("ps", ["a"])
+    pr = s.create_property("p", [1, 2, 3, 4] if long else [1, 2])
+    ps = s.create_property("ps", ["a", "b", "c"] if long else ["a"])
+    pf = s.create_property("pf", [0.5, 1.5, 2.5] if long else [0.5])
     b.metadata = s
     ft = t.create_feature(da, "tagged")
-    sd = da.append_set_dimension(["a", "b"])
-    rd = da.append_range_dimension([1.0, 2.0])
+    sd = da.append_set_dimension(["a", "b", "c", "d"] if long else ["a", "b"])
+    rd = da.append_range_dimension([1.0, 2.0, 3.0, 4.0] if long else [1.0, 2.0])
     sm = d1.append_sampled_dimension(1.0)
-    da.polynom_coefficients = [0.0, 1.0]
+    da.polynom_coefficients = [0.0, 1.0, 2.0, 3.0] if long else [0.0, 1.0]
     b.create_data_array("da-extents", "t", data=[1.0])
     fsrc = b2.create_source("zz", "t")
-    return dict(fsrc=fsrc, f=f, b=b, b2=b2, da=da, d1=d1, ds=ds, da2=da2, df=df, t=t, mt=mt, g=g, src=src, src2=src2, s=s, s2=s2,
-                pr=pr, ps=ps, ft=ft, sd=sd, rd=rd, sm=sm)
+    return dict(fsrc=fsrc, f=f, b=b, b2=b2, da=da, d1=d1, ds=ds, dx=dx, da2=da2, df=df, df2=df2, t=t, mt=mt, g=g, src=src,
+                src2=src2, s=s, s2=s2, pr=pr, ps=ps, pf=pf, ft=ft, sd=sd, rd=rd, sm=sm, long=long)
 
 
 def _set(o, a, v):
@@ -801,6 +876,30 @@ def _catalogue():
     add("Tag.position:nonnumeric", lambda c: _set(c["t"], "position", ["a"]))
     add("Tag.position:longer-with-object", lambda c: _set(c["t"], "position", [1, 2, object()]))
     add("Tag.extent:nonnumeric", lambda c: _set(c["t"], "extent", ["a", "b"]))
+    # spellings of the offending value: an ndarray is not converted the way a list is (6514f20 and its relatives)
+    add("Tag.position:ndarray-str-longer", lambda c: _set(c["t"], "position", np.array(["a", "b", "c"])))
+    add("Tag.extent:ndarray-object-longer", lambda c: _set(c["t"], "extent", np.array([1.0, "k", None], dtype=object)))
+    add("DataArray.polynom_coefficients:ndarray-bytes-shorter",
+        lambda c: _set(c["da"], "polynom_coefficients", np.array([b"x"])))
+    add("RangeDimension.ticks:complex-longer", lambda c: _set(c["rd"], "ticks", [1j, 2j, 3j]))
+    add("RangeDimension.ticks:complex-on-linked", lambda c: (c["rd"].link_data_array(c["da"], [0, -1]),
+                                                            _set(c["rd"], "ticks", [1j, 2j, 3j]))[1])
+    add("SetDimension.link_data_frame:index-array", lambda c: c["sd"].link_data_frame(c["df"], np.array([1.0], dtype=object)),
+        lambda c: c["sd"].link_data_frame(c["df"], 1))
+    add("RangeDimension.link_data_frame:index-array", lambda c: c["rd"].link_data_frame(c["df"], np.array([0.0], dtype=object)))
+    add("create_source:type-generator", lambda c: c["b"].create_source("n10", (x for x in [1, 2])),
+        lambda c: c["b"].create_source("n10", "t"))
+    add("create_group:type-object", lambda c: c["b"].create_group("n11", [object()]),
+        lambda c: c["b"].create_group("n11", "t"))
+    add("create_block:type-generator", lambda c: c["f"].create_block("n12", (x for x in [1, 2])),
+        lambda c: c["f"].create_block("n12", "t"))
+    add("create_section:type-object", lambda c: c["s"].create_section("n13", [object()]),
+        lambda c: c["s"].create_section("n13", "t"))
+    add("create_data_frame:col-dtypes-datetime",
+        lambda c: c["b"].create_data_frame("f3", "t", col_names=["a", "b"], col_dtypes=np.arange(2).astype("datetime64[s]")),
+        lambda c: c["b"].create_data_frame("f3", "t", col_names=["a", "b"], col_dtypes=[int, float]))
+    add("create_data_frame:col-dict-empty-mapping", lambda c: c["b"].create_data_frame("f4", "t", col_dict=c["s2"]),
+        lambda c: c["b"].create_data_frame("f4", "t", col_dict={"a": int}))
     add("Tag.units:int", lambda c: _set(c["t"], "units", ["mV", 5]))
     add("DataArray.unit:int", lambda c: _set(c["da"], "unit", 5))
     add("DataArray.label:int", lambda c: _set(c["da"], "label", 5))
@@ -969,6 +1068,205 @@ def _check_call(f, c, label, call, retry):
     return None, True
 
 
+# ---------------------------------------------------------------------------------------------------
+# the argument-spelling sweep (c12_sweep.py): TARGETS x SPELLINGS x {short, long} on the implementation
+
+
+class _Scene:
+    """one file holding the scene of `_build`, rebuilt on demand"""
+
+    def __init__(self, ctx, long, tag="sweep"):
+        self.path = ctx.tmpfile("c12-%s.nix" % tag)
+        self.long = long
+        self.f = None
+        self.c = None
+        self.builds = 0
+
+    def build(self):
+        self.close()
+        self.f = nixio.File.open(self.path, nixio.FileMode.Overwrite)
+        self.c = _quiet(lambda: _build(self.f, self.long))
+        self.builds += 1
+        return self.c
+
+    def bytes(self):
+        """digest of the flushed file's bytes (None when it cannot be taken)"""
+        try:
+            self.f._h5file.flush()
+            with open(self.path, "rb") as fh:
+                return hashlib.sha1(fh.read()).digest()
+        except Exception:       # noqa
+            return None
+
+    def close(self):
+        if self.f is not None:
+            try:
+                self.f.close()
+            except Exception:       # noqa
+                pass
+            self.f = None
+        try:
+            os.remove(self.path)
+        except OSError:
+            pass
+
+
+class _CallTimeout(BaseException):
+    """a call of the sweep that does not return (h5py's chunk guessing loops forever on a NaN / infinite shape):
+    neither refused nor accepted - the property says nothing; the scene is rebuilt"""
+
+
+@contextlib.contextmanager
+def _time_limit(seconds):
+    import signal
+    import threading
+    if threading.current_thread() is not threading.main_thread():
+        yield
+        return
+
+    def handler(signum, frame):
+        raise _CallTimeout()
+    old = signal.signal(signal.SIGALRM, handler)
+    signal.setitimer(signal.ITIMER_REAL, seconds)
+    try:
+        yield
+    finally:
+        signal.setitimer(signal.ITIMER_REAL, 0)
+        signal.signal(signal.SIGALRM, old)
+
+
+def _sweep_call(scene, tlabel, slabel):
+    """(refused?, error text) of one call of the product on the scene; (None, ...) when the call did not return"""
+    _, call, _ = SW.TARGET_INDEX[tlabel]
+    v = SW.SPELLING_INDEX[slabel][1](scene.c)
+    try:
+        with _time_limit(8.0):
+            _quiet(lambda: call(scene.c, v))
+        return False, None
+    except _CallTimeout:
+        return None, "no return within 8 s"
+    except Exception as e:      # noqa   every exception class is a refusal
+        return True, "%s: %s" % (type(e).__name__, str(e)[:160])
+
+
+def _sweep_reset(scene, tlabel):
+    """after an accepted call: the target's valid restoring call; False when the scene has to be rebuilt"""
+    reset = SW.TARGET_INDEX[tlabel][2]
+    if reset is None:
+        return False
+    try:
+        _quiet(lambda: reset(scene.c))
+        return True
+    except Exception:       # noqa
+        return False
+
+
+def _sweep_failure(long, tlabel, slabel, history, err, diff):
+    return Failure("a refused call changed the file",
+                   {"kind": "sweep", "long": long, "target": tlabel, "spelling": slabel, "accepted_before": history},
+                   {"raised": err, "changes": diff}, "file identical before and after the refused call",
+                   "sweep:" + tlabel)
+
+
+def sweep(ctx, plan, deadline=None):
+    """plan: [(long, target label, [spelling labels])] (c12_sweep.plan); returns (failures, stats)"""
+    failures = []
+    stats = {"calls": 0, "refused": 0, "accepted": 0, "snapshots": 0, "replays": 0, "builds": 0, "targets": 0,
+             "cut_short": False, "timeouts": []}
+    scenes = {False: _Scene(ctx, False, "sweep-short"), True: _Scene(ctx, True, "sweep-long")}
+    try:
+        for long, tlabel, spellings in plan:
+            if deadline is not None and time.time() > deadline:
+                stats["cut_short"] = True
+                break
+            scene = scenes[bool(long)]
+            stats["targets"] += 1
+            scene.build()
+            before, bbytes = snapshot(scene.f), scene.bytes()
+            history = []
+            found = 0
+            for slabel in spellings:
+                refused, err = _sweep_call(scene, tlabel, slabel)
+                stats["calls"] += 1
+                if refused is None:
+                    stats["timeouts"].append("%s <- %s" % (tlabel, slabel))
+                    scene.build()
+                    before, bbytes = snapshot(scene.f), scene.bytes()
+                    history = []
+                    continue
+                if refused:
+                    stats["refused"] += 1
+                    # identical bytes of the flushed file: nothing was written (the common case); otherwise the
+                    # strict snapshot decides (HDF5 may rewrite bytes without an observable change)
+                    abytes = scene.bytes()
+                    if abytes is not None and abytes == bbytes:
+                        continue
+                    stats["snapshots"] += 1
+                    if before is None:
+                        # no snapshot was taken after the last accepted call: decide on a fresh scene, by replay
+                        stats["replays"] += 1
+                        fl = _replay_sweep(ctx, {"long": long, "target": tlabel, "spelling": slabel,
+                                                 "accepted_before": list(history)})
+                        after = None
+                    else:
+                        try:
+                            after = snapshot(scene.f)
+                        except Exception as e:      # noqa
+                            after = [{"path": "", "attrs": [("the file can no longer be read", repr(e))]}]
+                        fl = None if after == before else _sweep_failure(long, tlabel, slabel, list(history), err,
+                                                                         snap_diff(before, after))
+                    if fl is None:
+                        before = after if after is not None else snapshot(scene.f)
+                        bbytes = abytes
+                    else:
+                        # the shortest history that reproduces it: none at all, if possible
+                        alone = _replay_sweep(ctx, dict(fl.input, accepted_before=[])) if history else None
+                        failures.append(alone if alone is not None else fl)
+                        found += 1
+                        if found >= 3:
+                            break
+                        scene.build()
+                        before, bbytes = snapshot(scene.f), scene.bytes()
+                        history = []
+                else:
+                    stats["accepted"] += 1
+                    history.append(slabel)
+                    if not _sweep_reset(scene, tlabel):
+                        scene.build()
+                        history = []
+                    before, bbytes = None, scene.bytes()
+    finally:
+        stats["builds"] = sum(sc.builds for sc in scenes.values())
+        for sc in scenes.values():
+            sc.close()
+    return failures, stats
+
+
+def _replay_sweep(ctx, inp):
+    scene = _Scene(ctx, bool(inp.get("long")), tag="sweep-replay")
+    tlabel, slabel = inp.get("target"), inp.get("spelling")
+    if tlabel not in SW.TARGET_INDEX or slabel not in SW.SPELLING_INDEX:
+        return None
+    try:
+        scene.build()
+        for h in inp.get("accepted_before") or []:
+            if h in SW.SPELLING_INDEX:
+                refused, _ = _sweep_call(scene, tlabel, h)
+                if refused is None or (not refused and not _sweep_reset(scene, tlabel)):
+                    return None
+        before = snapshot(scene.f)
+        refused, err = _sweep_call(scene, tlabel, slabel)
+        if not refused:
+            return None
+        after = snapshot(scene.f)
+        if after == before:
+            return None
+        return _sweep_failure(bool(inp.get("long")), tlabel, slabel, list(inp.get("accepted_before") or []), err,
+                              snap_diff(before, after))
+    finally:
+        scene.close()
+
+
 def oracle(ctx, broken, hints):
     with ticking_clock():
         return _oracle(ctx, broken, hints)
@@ -1037,6 +1335,13 @@ def _oracle(ctx, broken, hints):
         failures += _strict_failures(impl, ops, "history %d" % k, ctx)
         if len(failures) > 12:
             break
+    # (d) the argument-spelling sweep: value-taking mutators x spellings of the value x {short, long} scene
+    sweep_rng = random.Random("C12-sweep/%s/%d" % (ctx.tier, ctx.seed))
+    sfail, sstats = sweep(ctx, SW.plan(ctx.tier, ctx.seed, sweep_rng, broken),
+                          deadline=time.time() + ctx.budget(150, 900) * (2 if broken else 1))
+    failures += sfail
+    evals += sstats["calls"]
+    refused += sstats["refused"]
     best = {}
     for fl in failures:
         key = (fl.what, fl.site)
@@ -1044,7 +1349,8 @@ def _oracle(ctx, broken, hints):
             best[key] = fl
     return {"evaluations": evals, "failures": list(best.values()), "refused_calls_checked": refused,
             "catalogue_cases": len(cat), "introspected_cases": len(intro), "introspection_skipped": skipped,
-            "accepted_not_refused": accepted, "histories": n}
+            "accepted_not_refused": accepted, "histories": n, "sweep": sstats,
+            "sweep_product": {"targets": len(SW.TARGETS), "spellings": len(SW.SPELLINGS), "scenes": 2}}
 
 
 def _still_fails(ctx, muts):
@@ -1142,6 +1448,8 @@ def _replay_failure(ctx, fj):
                 pass
             os.remove(path)
         return None
+    if inp.get("kind") == "sweep":
+        return _replay_sweep(ctx, inp)
     if inp.get("kind") == "history":
         ops, outs, _, impl = run_history(ctx, random.Random(0), 0, "mixed", "replay", 0, strict=True,
                                          replay_ops=inp["ops"])
